@@ -20,8 +20,8 @@ func edgeFacts(b *ssa.BasicBlock, succ int) []string {
 		if c == nil {
 			continue
 		}
-		key := funcKey(calleeObj(c))
-		if calleeObj(c) == nil {
+		key := callKey(c)
+		if key == "" {
 			continue
 		}
 		switch {
@@ -219,4 +219,16 @@ func calledFunc(info *types.Info, c *ast.CallExpr) *types.Func {
 		}
 	}
 	return nil
+}
+
+// callKey names the callee of c: the resolved function/method, or
+// "field:<Name>" for a call of a function-valued struct field.
+func callKey(c ssa.CallInstruction) string {
+	if obj := calleeObj(c); obj != nil {
+		return funcKey(obj)
+	}
+	if r, ok := loadedField(c.Common().Value); ok {
+		return "field:" + r.Field.Name()
+	}
+	return ""
 }
